@@ -383,7 +383,7 @@ def run(rep, tier, seed):
                         "expected_obs": e["obs"]})
 
         # 3. code -> spec: random long edit histories on bigger trees, validated by TLC against CompositeTree_trace
-        ntr = 400 if thorough else 70
+        ntr = 400 if thorough else 80
         traces = tracecheck_driver(ad, ntr, 40 if thorough else 25, seed, tconst)
         bad, stats = tracecheck.validate("CompositeTree_trace", tcfg, MODDIR, traces, timeout=3000)
         rep.add_tlc("trace-validation:" + fam, stats["tlc"])
@@ -436,7 +436,7 @@ def random_action(ad, w, rng, N, NL):
     kinds = ["Add", "Add", "Insert", "Insert", "Remove", "RemoveAll", "SetChildren", "Sort",
              "DeepCopy", "Pickle", "AddPresent", "InsertPresent", "RemoveAbsent"]
     pins = getattr(ad, "blkgrid", False)
-    kinds += (["Reestablish", "AddWrongType", "Add", "Insert"] + (["MoveTo", "MoveTo"] if pins else ["Replace"])) if typed else ["MoveTo"]
+    kinds += (["Reestablish", "Reestablish", "AddWrongType", "Add", "Insert", "Insert"] + (["MoveTo", "MoveTo"] if pins else ["Replace"])) if typed else ["MoveTo"]
     kind = rng.choice(kinds)
 
     def kind_of(n):
